@@ -395,20 +395,18 @@ func VerifC03XFloat(kind int, idx int, ff int) {
 		// the shortest text that identifies the value at the value's own precision: the two only
 		// agree when the text is the exact decimal expansion of the value and the reader's
 		// precision is enough for it.
-		cnt, end := 0, len(text)
-		for i, c := range text {
-			if c == 'L' || c == 'l' || c == 'e' {
-				end = i
+		// (the digits are taken from math/big directly, not from the text slip printed)
+		ref := []byte((*big.Float)(lf).Text('e', -1))
+		cnt := 0
+		for _, c := range ref {
+			if c == 'e' {
 				break
 			}
 			if c != '-' && c != '+' {
 				cnt++
 			}
 		}
-		dec := string(text[:end])
-		if end < len(text) {
-			dec += "e" + string(text[end+1:])
-		}
+		dec := string(ref)
 		exact := false
 		if lit, ok2 := new(big.Rat).SetString(dec); ok2 {
 			if val, _ := (*big.Float)(lf).Rat(nil); val != nil {
